@@ -2,7 +2,8 @@
    Scripted cases from harness/cmd/wqscript -prop C09, evaluated by Run/CorrWQ.v.
    Black-box monitor on the implementation's log alone: after every stimulus the number of work functions that have
    started and not been released is at most W, and (scripts of this profile have no errors, no Dequeue, no Stop) it
-   equals min(k, W) for k = Enqueue calls made - items released.
+   equals min(k, W) for k = Enqueue calls made - items released - also when work functions return errors (exactly
+   when no error subscriber exists; with subscribers the fan-out may legitimately hold a worker, see mon_run).
    Model-relative monitor: start sets and returned Enqueue calls must be among the model's predictions. *)
 From Coq Require Import List ZArith Bool Arith.
 From TC.Model Require Import WQ.
@@ -13,23 +14,28 @@ Import ListNotations.
 Definition rel_C09 (m o : obs) : bool :=
   zlist_eqb (o_started m) (o_started o) && zlist_eqb (o_returned m) (o_returned o).
 
-(* fold over the script: (#Enqueue calls, #started, #released, pure) ; pure = no error result / Dequeue / Stop so far *)
-Fixpoint mon_run (W : nat) (sc : list (stim * obs)) (enq started fin : nat) (pure : bool) : bool :=
+(* fold over the script: (#Enqueue calls, #started, #released, pure, subs, errs);
+   pure = no Dequeue / Stop / Break so far; subs = some Errors() subscription so far; errs = some work function returned
+   an error so far.  A completion with an error counts as a completion: its worker hands its token back like any
+   other (with no subscriber the monitor just drops the error).  Only when BOTH a subscriber and an error exist can a
+   worker be held up at errChan by a fan-out that waits for a subscriber; then the equality is left to the
+   model-relative comparison and only running <= W is asserted here. *)
+Fixpoint mon_run (W : nat) (sc : list (stim * obs)) (enq started fin : nat) (pure subs errs : bool) : bool :=
   match sc with
   | [] => true
   | (st, o) :: rest =>
       let enq' := match st with SEnq _ _ _ => S enq | _ => enq end in
       let fin' := match st with SFinish _ _ => S fin | _ => fin end in
-      let pure' := pure && match st with
-                           | SFinish _ e => (e <? 0)%Z
-                           | SDequeue _ | SStop | SBreak | SErrSub | SErrRecv _ => false
-                           | _ => true
-                           end in
+      let pure' := pure && match st with SDequeue _ | SStop | SBreak => false | _ => true end in
+      let subs' := subs || match st with SErrSub => true | _ => false end in
+      let errs' := errs || match st with SFinish _ e => negb (e <? 0)%Z | _ => false end in
+      let exact := pure' && negb (subs' && errs') in
       let started' := started + length (o_started o) in
       let running := started' - fin' in
-      (running <=? W) && (negb pure' || (running =? Nat.min (enq' - fin') W)) && mon_run W rest enq' started' fin' pure'
+      (running <=? W) && (negb exact || (running =? Nat.min (enq' - fin') W))
+      && mon_run W rest enq' started' fin' pure' subs' errs'
   end.
-Definition mon_C09 (c : wcase) : bool := mon_run (n (c_W c)) (c_script c) 0 0 0 true.
+Definition mon_C09 (c : wcase) : bool := mon_run (n (c_W c)) (c_script c) 0 0 0 true false false.
 
 Definition case := wcase.
 Definition verdict (c : case) : nat := if mon_C09 c then classify rel_C09 c else 1.
